@@ -13,6 +13,7 @@ def DurOk : Cmd → Prop
   | .hold d => 0 ≤ d
   | .timerAdd _ d _ => 0 ≤ d
   | .timerSet _ d _ => 0 ≤ d
+  | .timerAddOf _ d _ => 0 ≤ d
   | .schedUser _ d _ => 0 ≤ d
   | _ => True
 
